@@ -484,7 +484,7 @@ class Visitor(ast.NodeVisitor):
         if node.id in self._name_to_value:
             result = self._name_to_value[node.id]
 
-        if result is None and hasattr(builtins, node.id):
+        elif hasattr(builtins, node.id):
             result = getattr(builtins, node.id)
 
         if result is None and node.id != "None":
